@@ -108,9 +108,9 @@ fn eval_redeemer_with_optional_protocol(
                 program.eval_as(lang, costs, Some(initial_budget))
             }
         } else if let Some(protocol_major_version) = protocol_major_version {
-            program.eval_version_with_protocol(ExBudget::default(), lang, protocol_major_version)
+            program.eval_version_with_protocol(*initial_budget, lang, protocol_major_version)
         } else {
-            program.eval_version(ExBudget::default(), lang)
+            program.eval_version(*initial_budget, lang)
         };
 
         let cost = eval_result.cost();
